@@ -73,12 +73,15 @@ def run_property(mod, tier):
     impl_out = run_impl(hexes)
 
     mismatches = []
+    abstained = 0
     for c, m, i in zip(cases, model_out, impl_out):
         ii = strip_side(i)
         f = mod.oracle(c, ii, side(i))
         if f is not None:
             failures.append((f[0], f[1], {"case": c, "model": m, "impl": i}))
-        if m != ii:
+        if m is not None and m.startswith("ORACLE-MISS"):
+            abstained += 1      # the model needs a bzip2 oracle answer the case does not carry
+        elif m != ii:
             mismatches.append((c, m, i))
     if mismatches:
         # the model no longer describes the code. Is there an input among them
@@ -95,9 +98,10 @@ def run_property(mod, tier):
                 unproved.append({"correspondence": "model and implementation differ on %d of %d cases" % (len(mismatches), len(cases)),
                                  "case": c, "model": m, "impl": i})
 
-    extra_cov = {}
+    extra_cov = {"model_abstained_oracle_miss": abstained}
     if hasattr(mod, "extra_runs"):
-        fs, extra_cov = mod.extra_runs(tier, rng, {"cases": cases, "model": model_out, "impl": impl_out})
+        fs, ec = mod.extra_runs(tier, rng, {"cases": cases, "model": model_out, "impl": impl_out})
+        extra_cov.update(ec)
         failures += fs
 
     return finish(mod, tier, seed, t0, cases, model_out, impl_out, failures, unproved, extra_cov, binfo, notes, theorems, assum, mismatches)
